@@ -605,3 +605,970 @@ Qed.
 
 Theorem rfc_codec r : wf_request r = true -> rfc_read (rfc_write r) = Some r.
 Proof. intros H. apply rfc_read_write_conformant, validate_raw, H. Qed.
+
+(* ------------------------------------------------------------------------- *)
+(** * The server on documents the reference reads *)
+
+(** ** attributes *)
+
+Lemma real_attrs_is_without a : real_attrs a = without_nsdecls a.
+Proof. reflexivity. Qed.
+
+Lemma real_attrs_idem a : real_attrs (real_attrs a) = real_attrs a.
+Proof.
+  unfold real_attrs. induction a as [|x a IH]; simpl; auto.
+  destruct (is_nsdecl x) eqn:E; simpl; [exact IH|]. rewrite E. simpl. congruence.
+Qed.
+
+(** namespace declarations that collide with no field are skipped by the assignment loop *)
+Lemma assign_skip_decls {W} (set : string -> string -> W -> res W) fs a :
+  (forall local v w, mem local fs = false -> set local v w = Ok w) ->
+  attr_collides fs a = false ->
+  forall w, assign_attrs set w a = assign_attrs set w (real_attrs a).
+Proof.
+  intros Hset. induction a as [|x a IH]; simpl; intros Hc w; auto.
+  apply orb_false_iff in Hc. destruct Hc as [Hx Hc].
+  destruct (is_nsdecl x) eqn:E; simpl.
+  - simpl in Hx. rewrite (Hset _ _ _ Hx). simpl. apply IH, Hc.
+  - destruct (set (snd (fst x)) (snd x) w); simpl; auto.
+Qed.
+
+Lemma mem_false_cons s x l : mem s (x :: l) = false <-> s <> x /\ mem s l = false.
+Proof.
+  unfold mem; simpl. rewrite orb_false_iff, String.eqb_neq. tauto.
+Qed.
+
+Lemma mem_true_cons s x l : mem s (x :: l) = true <-> s = x \/ mem s l = true.
+Proof.
+  unfold mem; simpl. rewrite orb_true_iff, String.eqb_eq. tauto.
+Qed.
+
+Lemma find_attr_none_of_nomem local ra :
+  mem local (map (fun x : attr => snd (fst x)) ra) = false -> find_attr local ra = None.
+Proof.
+  induction ra as [|x ra IH]; simpl; intros H; auto.
+  apply mem_false_cons in H. destruct H as [H1 H2].
+  destruct (String.eqb (snd (fst x)) local) eqn:E.
+  - apply String.eqb_eq in E. congruence.
+  - auto.
+Qed.
+
+Definition attr_in (fs : list string) (x : attr) : bool :=
+  String.eqb (fst (fst x)) "" && mem (snd (fst x)) fs.
+
+Lemma attrs_ok_split fs a :
+  attrs_ok fs a = true ->
+  forallb (attr_in fs) (real_attrs a) = true /\
+  nodupb (map (fun x : attr => snd (fst x)) (real_attrs a)) = true.
+Proof. unfold attrs_ok. intros H. apply andb_true_iff in H. exact H. Qed.
+
+(** ** content *)
+
+Lemma pcdata_chardata k s : pcdata k = Some s -> chardata k = s.
+Proof.
+  revert s; induction k as [|x k IH]; simpl; intros s H.
+  - inversion H; reflexivity.
+  - destruct x; try discriminate.
+    + destruct (pcdata k); simpl in H; [|discriminate]. inversion H; subst. f_equal. auto.
+    + auto.
+Qed.
+
+Fixpoint walk3 {W} (step : qname -> list attr -> list xtree -> W -> res W) (w : W) (es : list elem3) : res W :=
+  match es with
+  | [] => Ok w
+  | (n, a, k) :: r => do w1 <- step n a k w; walk3 step w1 r
+  end.
+
+Lemma walk_kids_elems {W} (step : qname -> list attr -> list xtree -> W -> res W) k es :
+  elems k = Some es -> forall w, walk_kids step w k = walk3 step w es.
+Proof.
+  revert es; induction k as [|x k IH]; simpl; intros es H w.
+  - inversion H; reflexivity.
+  - destruct x.
+    + destruct (elems k); simpl in H; [|discriminate]. inversion H; subst. simpl.
+      destruct (step n attrs kids w); simpl; auto.
+    + destruct (is_ws s); [auto|discriminate].
+    + auto.
+Qed.
+
+Definition un3 (e : elem3) : xtree := Elem (fst (fst e)) (snd (fst e)) (snd e).
+
+Lemma elems_collides k es :
+  elems k = Some es -> existsb collides k = false -> forall e, In e es -> collides (un3 e) = false.
+Proof.
+  revert es; induction k as [|x k IH]; simpl; intros es H Hc e Hin.
+  - inversion H; subst. contradiction.
+  - apply orb_false_iff in Hc. destruct Hc as [Hx Hk]. destruct x.
+    + destruct (elems k) as [l|] eqn:E; simpl in H; [|discriminate]. inversion H; subst.
+      destruct Hin as [<-|Hin]; [exact Hx|]. exact (IH l eq_refl Hk e Hin).
+    + destruct (is_ws s); [|discriminate]. exact (IH es H Hk e Hin).
+    + exact (IH es H Hk e Hin).
+Qed.
+
+Lemma collides_elem n a k :
+  collides (Elem n a k) = false -> attr_collides (attr_fields n) a = false /\ existsb collides k = false.
+Proof. simpl. intros H. apply orb_false_iff in H. exact H. Qed.
+
+(** ** the enumerations: Go's UnmarshalText against the RFC's value lists *)
+
+Lemma negate_agree v x : val_negate (Some v) = Some x -> unmarshal_negate v = Ok x.
+Proof.
+  unfold val_negate, unmarshal_negate.
+  destruct (String.eqb v "yes"); [intros H; inversion H; reflexivity|].
+  destruct (String.eqb v "no"); [intros H; inversion H; reflexivity|discriminate].
+Qed.
+
+Lemma match_agree v m : val_match (Some v) = Some m -> unmarshal_match_type v = Ok v /\ v = match_str m.
+Proof.
+  unfold val_match, unmarshal_match_type.
+  destruct (String.eqb v "equals") eqn:E1; [apply String.eqb_eq in E1; subst; intros H; inversion H; auto|].
+  destruct (String.eqb v "contains") eqn:E2; [apply String.eqb_eq in E2; subst; intros H; inversion H; auto|].
+  destruct (String.eqb v "starts-with") eqn:E3; [apply String.eqb_eq in E3; subst; intros H; inversion H; auto|].
+  destruct (String.eqb v "ends-with") eqn:E4; [apply String.eqb_eq in E4; subst; intros H; inversion H; auto|].
+  discriminate.
+Qed.
+
+Lemma test_agree v t : val_test (Some v) = Some t -> unmarshal_filter_test v = Ok v /\ v = test_str t.
+Proof.
+  unfold val_test, unmarshal_filter_test.
+  destruct (String.eqb v "anyof") eqn:E1; [apply String.eqb_eq in E1; subst; intros H; inversion H; auto|].
+  destruct (String.eqb v "allof") eqn:E2; [apply String.eqb_eq in E2; subst; intros H; inversion H; auto|].
+  discriminate.
+Qed.
+
+Lemma canon_match_str m : canon_match (match_str m) = match_str m.
+Proof. destruct m; reflexivity. Qed.
+Lemma canon_test_str t : canon_test (test_str t) = test_str t.
+Proof. destruct t; reflexivity. Qed.
+
+Definition local_of (x : attr) : string := snd (fst x).
+
+Lemma attr_in_cases fs x : attr_in fs x = true -> fst (fst x) = "" /\ mem (snd (fst x)) fs = true.
+Proof. unfold attr_in. rewrite andb_true_iff, String.eqb_eq. tauto. Qed.
+
+(** ** text-match *)
+
+Lemma tm_assign ra : forall w ng mt,
+  forallb (attr_in ["collation"; "negate-condition"; "match-type"]) ra = true ->
+  nodupb (map (fun x : attr => snd (fst x)) ra) = true ->
+  val_negate (find_attr "negate-condition" ra) = Some ng ->
+  val_match (find_attr "match-type" ra) = Some mt ->
+  exists w', assign_attrs tm_set w ra = Ok w' /\
+    wtm_negate w' = (match find_attr "negate-condition" ra with Some _ => ng | None => wtm_negate w end) /\
+    wtm_match w' = (match find_attr "match-type" ra with Some v => v | None => wtm_match w end).
+Proof.
+  induction ra as [|[[ns l] v] ra IH]; intros w ng mt Hin Hnd Hng Hmt.
+  - exists w. simpl. auto.
+  - cbn [forallb] in Hin. apply andb_true_iff in Hin. destruct Hin as [Hx Hin].
+    apply attr_in_cases in Hx. cbn [fst snd] in Hx. destruct Hx as [-> Hl].
+    cbn [map nodupb fst snd] in Hnd. apply andb_true_iff in Hnd. destruct Hnd as [Hnm Hnd].
+    apply negb_true_iff in Hnm.
+    pose proof (find_attr_none_of_nomem l ra Hnm) as Fn.
+    cbn [assign_attrs fst snd].
+    apply mem_true_cons in Hl. destruct Hl as [->|Hl]; [|apply mem_true_cons in Hl; destruct Hl as [->|Hl];
+      [|apply mem_true_cons in Hl; destruct Hl as [->|Hl]; [|discriminate]]].
+    + (* collation *)
+      cbn [find_attr fst snd] in *.
+      replace (String.eqb "collation" "negate-condition") with false in * by reflexivity.
+      replace (String.eqb "collation" "match-type") with false in * by reflexivity.
+      unfold tm_set at 1. replace (String.eqb "collation" "collation") with true by reflexivity. cbn [bind].
+      destruct (IH (mkWTM (wtm_text w) v (wtm_negate w) (wtm_match w)) ng mt Hin Hnd Hng Hmt) as [w' [A [B C0]]].
+      exists w'. auto.
+    + (* negate-condition *)
+      cbn [find_attr fst snd] in *.
+      replace (String.eqb "negate-condition" "negate-condition") with true in * by reflexivity.
+      replace (String.eqb "negate-condition" "match-type") with false in * by reflexivity.
+      apply negate_agree in Hng.
+      unfold tm_set at 1.
+      replace (String.eqb "negate-condition" "collation") with false by reflexivity.
+      replace (String.eqb "negate-condition" "negate-condition") with true by reflexivity.
+      rewrite Hng. cbn [bind].
+      assert (Hng' : val_negate (find_attr "negate-condition" ra) = Some false) by (rewrite Fn; reflexivity).
+      destruct (IH (mkWTM (wtm_text w) (wtm_collation w) ng (wtm_match w)) false mt Hin Hnd Hng' Hmt) as [w' [A [B C0]]].
+      exists w'. rewrite Fn in B. cbn [wtm_negate wtm_match] in *. auto.
+    + (* match-type *)
+      cbn [find_attr fst snd] in *.
+      replace (String.eqb "match-type" "negate-condition") with false in * by reflexivity.
+      replace (String.eqb "match-type" "match-type") with true in * by reflexivity.
+      apply match_agree in Hmt. destruct Hmt as [Hmt _].
+      unfold tm_set at 1.
+      replace (String.eqb "match-type" "collation") with false by reflexivity.
+      replace (String.eqb "match-type" "negate-condition") with false by reflexivity.
+      replace (String.eqb "match-type" "match-type") with true by reflexivity.
+      rewrite Hmt. cbn [bind].
+      assert (Hmt' : val_match (find_attr "match-type" ra) = Some Contains) by (rewrite Fn; reflexivity).
+      destruct (IH (mkWTM (wtm_text w) (wtm_collation w) (wtm_negate w) v) ng Contains Hin Hnd Hng Hmt') as [w' [A [B C0]]].
+      exists w'. rewrite Fn in C0. cbn [wtm_negate wtm_match] in *. auto.
+Qed.
+
+Definition tm_fields := ["collation"; "negate-condition"; "match-type"].
+
+Lemma tm_set_skip local v w : mem local tm_fields = false -> tm_set local v w = Ok w.
+Proof.
+  intros H. apply mem_false_cons in H. destruct H as [H1 H].
+  apply mem_false_cons in H. destruct H as [H2 H].
+  apply mem_false_cons in H. destruct H as [H3 _].
+  unfold tm_set. apply String.eqb_neq in H1, H2, H3. rewrite H1, H2, H3. reflexivity.
+Qed.
+
+Lemma server_reads_tm n a k t :
+  read_tm (n, a, k) = Some t -> attr_collides tm_fields a = false ->
+  exists w, unmarshal_text_match wtm_zero n a k = Ok w /\ canon_tm (decode_text_match w) = pub_tm t.
+Proof.
+  unfold read_tm. intros H Hc.
+  destruct (qname_eqb n (C "text-match")) eqn:En; [|discriminate]. cbn [negb] in H.
+  apply qname_eqb_spec in En. subst n.
+  destruct (attrs_ok ["collation"; "negate-condition"; "match-type"] a) eqn:Ea; [|discriminate]. cbn [negb] in H.
+  destruct (negb _); [discriminate|].
+  apply obind_some in H. destruct H as [ng [Hng H]].
+  apply obind_some in H. destruct H as [mt [Hmt H]].
+  apply obind_some in H. destruct H as [s [Hs H]]. inversion H; subst t; clear H.
+  apply attrs_ok_split in Ea. destruct Ea as [Hin Hnd].
+  unfold unmarshal_text_match.
+  replace (check_name NS_CARD "text-match" (C "text-match")) with true by reflexivity. cbn [negb].
+  rewrite (assign_skip_decls tm_set tm_fields a tm_set_skip Hc).
+  destruct (tm_assign (real_attrs a) wtm_zero ng mt Hin Hnd Hng Hmt) as [w' [A [B C0]]].
+  rewrite A. cbn [bind]. eexists; split; [reflexivity|].
+  unfold canon_tm, decode_text_match, pub_tm. cbn [tm_text tm_negate tm_match wtm_text wtm_negate wtm_match rt_text rt_negate rt_match].
+  rewrite (pcdata_chardata _ _ Hs). f_equal.
+  - rewrite B. unfold get_attr in Hng. destruct (find_attr "negate-condition" (real_attrs a)); [reflexivity|].
+    simpl in Hng. inversion Hng; reflexivity.
+  - rewrite C0. unfold get_attr in Hmt. destruct (find_attr "match-type" (real_attrs a)) as [v|].
+    + apply match_agree in Hmt. destruct Hmt as [_ ->]. apply canon_match_str.
+    + simpl in Hmt. inversion Hmt; reflexivity.
+Qed.
+
+(** ** param-filter *)
+
+Lemma pa_assign ra : forall w,
+  forallb (attr_in ["name"]) ra = true ->
+  nodupb (map (fun x : attr => snd (fst x)) ra) = true ->
+  exists w', assign_attrs pa_set w ra = Ok w' /\
+    wpa_name w' = dflt (wpa_name w) (find_attr "name" ra) /\ wpa_ind w' = wpa_ind w /\ wpa_tm w' = wpa_tm w.
+Proof.
+  induction ra as [|[[ns l] v] ra IH]; intros w Hin Hnd.
+  - exists w. simpl. auto.
+  - cbn [forallb] in Hin. apply andb_true_iff in Hin. destruct Hin as [Hx Hin].
+    apply attr_in_cases in Hx. cbn [fst snd] in Hx. destruct Hx as [-> Hl].
+    cbn [map nodupb fst snd] in Hnd. apply andb_true_iff in Hnd. destruct Hnd as [Hnm Hnd].
+    apply negb_true_iff in Hnm.
+    pose proof (find_attr_none_of_nomem l ra Hnm) as Fn.
+    apply mem_true_cons in Hl. destruct Hl as [->|Hl]; [|discriminate].
+    cbn [assign_attrs fst snd find_attr]. unfold pa_set at 1.
+    replace (String.eqb "name" "name") with true by reflexivity. cbn [bind dflt].
+    destruct (IH (mkWPA v (wpa_ind w) (wpa_tm w)) Hin Hnd) as [w' [A [B [C0 D0]]]].
+    exists w'. rewrite Fn in B. cbn [dflt wpa_name wpa_ind wpa_tm] in *. auto.
+Qed.
+
+Lemma pa_set_skip local v w : mem local ["name"] = false -> pa_set local v w = Ok w.
+Proof.
+  intros H. apply mem_false_cons in H. destruct H as [H1 _].
+  unfold pa_set. apply String.eqb_neq in H1. rewrite H1. reflexivity.
+Qed.
+
+Lemma is_empty_elem_name name n a k : is_empty_elem name (n, a, k) = true -> n = name.
+Proof.
+  unfold is_empty_elem. intros H. apply andb_true_iff in H. destruct H as [H _].
+  apply andb_true_iff in H. destruct H as [H _]. apply qname_eqb_spec in H. exact H.
+Qed.
+
+Lemma read_tm_name n a k t : read_tm (n, a, k) = Some t -> n = C "text-match".
+Proof.
+  unfold read_tm. destruct (qname_eqb n (C "text-match")) eqn:E; [|discriminate].
+  intros _. apply qname_eqb_spec in E. exact E.
+Qed.
+
+Lemma server_reads_param n a k p :
+  read_param (n, a, k) = Some p -> collides (Elem n a k) = false ->
+  exists w pa, unmarshal_param_filter wpa_zero n a k = Ok w /\
+               decode_param_filter w = Ok pa /\ canon_param pa = pub_param p.
+Proof.
+  unfold read_param. intros H Hc.
+  destruct (qname_eqb n (C "param-filter")) eqn:En; [|discriminate]. cbn [negb] in H.
+  apply qname_eqb_spec in En. subst n.
+  destruct (attrs_ok ["name"] a) eqn:Ea; [|discriminate]. cbn [negb] in H.
+  apply obind_some in H. destruct H as [name [Hname H]].
+  apply obind_some in H. destruct H as [es [Hes H]].
+  apply collides_elem in Hc. destruct Hc as [Hca Hck].
+  change (attr_fields (C "param-filter")) with ["name"] in Hca.
+  apply attrs_ok_split in Ea. destruct Ea as [Hin Hnd].
+  unfold unmarshal_param_filter.
+  replace (check_name NS_CARD "param-filter" (C "param-filter")) with true by reflexivity. cbn [negb].
+  rewrite (assign_skip_decls pa_set ["name"] a pa_set_skip Hca).
+  destruct (pa_assign (real_attrs a) wpa_zero Hin Hnd) as [w1 [A [B [C0 D0]]]].
+  rewrite A. cbn [bind]. rewrite (walk_kids_elems pa_step k es Hes).
+  unfold get_attr in Hname. rewrite Hname in B. cbn [dflt wpa_zero wpa_name wpa_ind wpa_tm] in B, C0, D0.
+  destruct w1 as [wn wi wt]. cbn [wpa_name wpa_ind wpa_tm] in *. subst wn wi wt.
+  destruct es as [|[[n1 a1] k1] [|e2 r]]; try discriminate.
+  - inversion H; subst p. exists (mkWPA name false None), (mkPA name false None). auto.
+  - pose proof (elems_collides k _ Hes Hck (n1, a1, k1) (or_introl eq_refl)) as Hc1.
+    destruct (is_empty_elem (C "is-not-defined") (n1, a1, k1)) eqn:Ei.
+    + inversion H; subst p. apply is_empty_elem_name in Ei. subst n1.
+      exists (mkWPA name true None), (mkPA name true None). auto.
+    + apply obind_some in H. destruct H as [t [Ht H]]. inversion H; subst p.
+      pose proof (read_tm_name _ _ _ _ Ht). subst n1.
+      cbn [un3 fst snd] in Hc1. apply collides_elem in Hc1. destruct Hc1 as [Hc1 _].
+      change (attr_fields (C "text-match")) with tm_fields in Hc1.
+      destruct (server_reads_tm _ _ _ _ Ht Hc1) as [wt [U V]].
+      cbn [walk3]. unfold pa_step. cbn [C snd wpa_tm dflt].
+      replace (String.eqb "text-match" "is-not-defined") with false by reflexivity.
+      replace (String.eqb "text-match" "text-match") with true by reflexivity.
+      change (NS_CARD, "text-match") with (C "text-match"). rewrite U. cbn [bind].
+      exists (mkWPA name false (Some wt)), (mkPA name false (Some (decode_text_match wt))).
+      split; [reflexivity|]. split; [reflexivity|].
+      unfold canon_param, pub_param. cbn [pa_name pa_ind pa_tm rp_cond rp_name]. rewrite V. reflexivity.
+Qed.
+
+(** ** prop-filter *)
+
+Lemma pf_assign ra : forall w t,
+  forallb (attr_in ["name"; "test"]) ra = true ->
+  nodupb (map (fun x : attr => snd (fst x)) ra) = true ->
+  val_test (find_attr "test" ra) = Some t ->
+  exists w', assign_attrs pf_set w ra = Ok w' /\
+    wpf_name w' = dflt (wpf_name w) (find_attr "name" ra) /\
+    wpf_test w' = (match find_attr "test" ra with Some v => v | None => wpf_test w end) /\
+    wpf_ind w' = wpf_ind w /\ wpf_tms w' = wpf_tms w /\ wpf_params w' = wpf_params w.
+Proof.
+  induction ra as [|[[ns l] v] ra IH]; intros w t Hin Hnd Ht.
+  - exists w. simpl. auto 6.
+  - cbn [forallb] in Hin. apply andb_true_iff in Hin. destruct Hin as [Hx Hin].
+    apply attr_in_cases in Hx. cbn [fst snd] in Hx. destruct Hx as [-> Hl].
+    cbn [map nodupb fst snd] in Hnd. apply andb_true_iff in Hnd. destruct Hnd as [Hnm Hnd].
+    apply negb_true_iff in Hnm.
+    pose proof (find_attr_none_of_nomem l ra Hnm) as Fn.
+    cbn [assign_attrs fst snd].
+    apply mem_true_cons in Hl. destruct Hl as [->|Hl]; [|apply mem_true_cons in Hl; destruct Hl as [->|Hl]; [|discriminate]].
+    + cbn [find_attr fst snd] in *.
+      replace (String.eqb "name" "test") with false in * by reflexivity.
+      replace (String.eqb "name" "name") with true in * by reflexivity.
+      unfold pf_set at 1. replace (String.eqb "name" "name") with true by reflexivity. cbn [bind dflt].
+      destruct (IH (mkWPF v (wpf_test w) (wpf_ind w) (wpf_tms w) (wpf_params w)) t Hin Hnd Ht)
+        as [w' [A [B [C0 [D0 [E0 F0]]]]]].
+      exists w'. rewrite Fn in B. cbn [dflt wpf_name wpf_test wpf_ind wpf_tms wpf_params] in *. auto 6.
+    + cbn [find_attr fst snd] in *.
+      replace (String.eqb "test" "name") with false in * by reflexivity.
+      replace (String.eqb "test" "test") with true in * by reflexivity.
+      apply test_agree in Ht. destruct Ht as [Ht _].
+      unfold pf_set at 1.
+      replace (String.eqb "test" "name") with false by reflexivity.
+      replace (String.eqb "test" "test") with true by reflexivity.
+      rewrite Ht. cbn [bind].
+      assert (Ht' : val_test (find_attr "test" ra) = Some AnyOf) by (rewrite Fn; reflexivity).
+      destruct (IH (mkWPF (wpf_name w) v (wpf_ind w) (wpf_tms w) (wpf_params w)) AnyOf Hin Hnd Ht')
+        as [w' [A [B [C0 [D0 [E0 F0]]]]]].
+      exists w'. rewrite Fn in C0. cbn [dflt wpf_name wpf_test wpf_ind wpf_tms wpf_params] in *. auto 6.
+Qed.
+
+Lemma pf_set_skip local v w : mem local ["name"; "test"] = false -> pf_set local v w = Ok w.
+Proof.
+  intros H. apply mem_false_cons in H. destruct H as [H1 H].
+  apply mem_false_cons in H. destruct H as [H2 _].
+  unfold pf_set. apply String.eqb_neq in H1, H2. rewrite H1, H2. reflexivity.
+Qed.
+
+Lemma read_param_name n a k p : read_param (n, a, k) = Some p -> n = C "param-filter".
+Proof.
+  unfold read_param. destruct (qname_eqb n (C "param-filter")) eqn:E; [|discriminate].
+  intros _. apply qname_eqb_spec in E. exact E.
+Qed.
+
+Lemma pf_kids_server es : forall tms ps w,
+  read_pf_kids es = Some (tms, ps) -> (forall e, In e es -> collides (un3 e) = false) ->
+  exists wtms wps pas,
+    walk3 pf_step w es = Ok (mkWPF (wpf_name w) (wpf_test w) (wpf_ind w) (wpf_tms w ++ wtms) (wpf_params w ++ wps)) /\
+    map (fun x => canon_tm (decode_text_match x)) wtms = map pub_tm tms /\
+    mapM decode_param_filter wps = Ok pas /\ map canon_param pas = map pub_param ps.
+Proof.
+  induction es as [|[[n a] k] es IH]; intros tms ps w H Hc.
+  - simpl in H. inversion H; subst. exists [], [], []. simpl. rewrite !app_nil_r. destruct w; auto.
+  - cbn [read_pf_kids] in H. apply obind_some in H. destruct H as [[tms' ps'] [Hr H]].
+    cbn [fst snd] in H.
+    assert (Hc' : forall e, In e es -> collides (un3 e) = false) by (intros; apply Hc; right; auto).
+    pose proof (Hc (n, a, k) (or_introl eq_refl)) as Hc1. cbn [un3 fst snd] in Hc1.
+    destruct (qname_eqb n (C "text-match")) eqn:E1.
+    + apply obind_some in H. destruct H as [t [Ht H]]. inversion H; subst tms ps; clear H.
+      apply qname_eqb_spec in E1. subst n.
+      apply collides_elem in Hc1. destruct Hc1 as [Hc1 _].
+      change (attr_fields (C "text-match")) with tm_fields in Hc1.
+      destruct (server_reads_tm _ _ _ _ Ht Hc1) as [wt [U V]].
+      cbn [walk3]. unfold pf_step at 1. cbn [C snd].
+      replace (String.eqb "text-match" "is-not-defined") with false by reflexivity.
+      replace (String.eqb "text-match" "text-match") with true by reflexivity.
+      change (NS_CARD, "text-match") with (C "text-match"). rewrite U. cbn [bind].
+      destruct (IH tms' ps' (mkWPF (wpf_name w) (wpf_test w) (wpf_ind w) (wpf_tms w ++ [wt]) (wpf_params w)) Hr Hc')
+        as [wtms [wps [pas [A [B [C0 D0]]]]]].
+      exists (wt :: wtms), wps, pas. rewrite A. cbn [wpf_name wpf_test wpf_ind wpf_tms wpf_params].
+      rewrite <- app_assoc. cbn [app map]. rewrite V, B. auto.
+    + destruct (qname_eqb n (C "param-filter")) eqn:E2; [|discriminate].
+      apply obind_some in H. destruct H as [p [Hp H]]. inversion H; subst tms ps; clear H.
+      apply qname_eqb_spec in E2. subst n.
+      destruct (server_reads_param _ _ _ _ Hp Hc1) as [wp [pa [U [V X]]]].
+      cbn [walk3]. unfold pf_step at 1. cbn [C snd].
+      replace (String.eqb "param-filter" "is-not-defined") with false by reflexivity.
+      replace (String.eqb "param-filter" "text-match") with false by reflexivity.
+      replace (String.eqb "param-filter" "param-filter") with true by reflexivity.
+      change (NS_CARD, "param-filter") with (C "param-filter"). rewrite U. cbn [bind].
+      destruct (IH tms' ps' (mkWPF (wpf_name w) (wpf_test w) (wpf_ind w) (wpf_tms w) (wpf_params w ++ [wp])) Hr Hc')
+        as [wtms [wps [pas [A [B [C0 D0]]]]]].
+      exists wtms, (wp :: wps), (pa :: pas). rewrite A. cbn [wpf_name wpf_test wpf_ind wpf_tms wpf_params].
+      rewrite <- app_assoc. cbn [app map mapM]. rewrite V. cbn [bind]. rewrite C0. cbn [bind]. rewrite X, D0. auto.
+Qed.
+
+Lemma single_cases {X} (g : elem3 -> bool) (es : list elem3) (A B : option X) f :
+  match es with [c] => if g c then A else B | _ => B end = Some f ->
+  (exists c, es = [c] /\ g c = true /\ A = Some f) \/ B = Some f.
+Proof.
+  destruct es as [|c [|d r]]; auto. destruct (g c) eqn:E; eauto.
+Qed.
+
+Lemma canon_test_found o t :
+  val_test o = Some t -> canon_test (match o with Some v => v | None => "" end) = test_str t.
+Proof.
+  destruct o as [v|]; intros H.
+  - apply test_agree in H. destruct H as [_ ->]. apply canon_test_str.
+  - inversion H; reflexivity.
+Qed.
+
+Lemma server_reads_pf n a k f :
+  read_pf (n, a, k) = Some f -> collides (Elem n a k) = false ->
+  exists w pf, unmarshal_prop_filter wpf_zero n a k = Ok w /\
+               decode_prop_filter w = Ok pf /\ canon_pf pf = pub_pf f.
+Proof.
+  unfold read_pf. intros H Hc.
+  destruct (qname_eqb n (C "prop-filter")) eqn:En; [|discriminate]. cbn [negb] in H.
+  apply qname_eqb_spec in En. subst n.
+  destruct (attrs_ok ["name"; "test"] a) eqn:Ea; [|discriminate]. cbn [negb] in H.
+  apply obind_some in H. destruct H as [name [Hname H]].
+  apply obind_some in H. destruct H as [t [Ht H]].
+  apply obind_some in H. destruct H as [es [Hes H]].
+  apply collides_elem in Hc. destruct Hc as [Hca Hck].
+  change (attr_fields (C "prop-filter")) with ["name"; "test"] in Hca.
+  apply attrs_ok_split in Ea. destruct Ea as [Hin Hnd].
+  unfold unmarshal_prop_filter.
+  replace (check_name NS_CARD "prop-filter" (C "prop-filter")) with true by reflexivity. cbn [negb].
+  rewrite (assign_skip_decls pf_set ["name"; "test"] a pf_set_skip Hca).
+  unfold get_attr in Hname, Ht.
+  destruct (pf_assign (real_attrs a) wpf_zero t Hin Hnd Ht) as [w1 [A [B [C0 [D0 [E0 F0]]]]]].
+  rewrite A. cbn [bind]. rewrite (walk_kids_elems pf_step k es Hes).
+  rewrite Hname in B. cbn [dflt wpf_zero wpf_name wpf_test wpf_ind wpf_tms wpf_params] in B, C0, D0, E0, F0.
+  pose proof (canon_test_found _ _ Ht) as CT. rewrite <- C0 in CT.
+  destruct w1 as [wn wt wi wtm wpa]. cbn [wpf_name wpf_test wpf_ind wpf_tms wpf_params] in *. subst wn wi wtm wpa.
+  clear C0.
+  pose proof (elems_collides k _ Hes Hck) as Hce.
+  apply single_cases in H. destruct H as [[c [-> [Ei H]]]|H].
+  - inversion H; subst f. destruct c as [[n1 a1] k1]. apply is_empty_elem_name in Ei. subst n1.
+    exists (mkWPF name wt true [] []), (mkPF name wt true [] []).
+    split; [reflexivity|]. split; [reflexivity|].
+    unfold canon_pf, pub_pf. cbn. rewrite CT. reflexivity.
+  - apply obind_some in H. destruct H as [[tms ps] [Hk H]]. inversion H; subst f.
+    destruct (pf_kids_server es tms ps (mkWPF name wt false [] []) Hk Hce) as [wtms [wps [pas [U [V [X Y]]]]]].
+    rewrite U. cbn [wpf_name wpf_test wpf_ind wpf_tms wpf_params app].
+    exists (mkWPF name wt false wtms wps), (mkPF name wt false (map decode_text_match wtms) pas).
+    split; [reflexivity|]. split.
+    + unfold decode_prop_filter. cbn [wpf_name wpf_test wpf_ind wpf_tms wpf_params andb]. rewrite X. reflexivity.
+    + unfold canon_pf, pub_pf. cbn [pf_name pf_test pf_ind pf_tms pf_params rf_name rf_test rf_cond fst snd].
+      rewrite CT, map_map, V, Y. reflexivity.
+Qed.
+
+(** ** filter *)
+
+Lemma f_assign ra : forall w t,
+  forallb (attr_in ["test"]) ra = true ->
+  nodupb (map (fun x : attr => snd (fst x)) ra) = true ->
+  val_test (find_attr "test" ra) = Some t ->
+  exists w', assign_attrs f_set w ra = Ok w' /\
+    wf_test w' = (match find_attr "test" ra with Some v => v | None => wf_test w end) /\
+    wf_props w' = wf_props w.
+Proof.
+  induction ra as [|[[ns l] v] ra IH]; intros w t Hin Hnd Ht.
+  - exists w. simpl. auto.
+  - cbn [forallb] in Hin. apply andb_true_iff in Hin. destruct Hin as [Hx Hin].
+    apply attr_in_cases in Hx. cbn [fst snd] in Hx. destruct Hx as [-> Hl].
+    cbn [map nodupb fst snd] in Hnd. apply andb_true_iff in Hnd. destruct Hnd as [Hnm Hnd].
+    apply negb_true_iff in Hnm.
+    pose proof (find_attr_none_of_nomem l ra Hnm) as Fn.
+    cbn [assign_attrs fst snd].
+    apply mem_true_cons in Hl. destruct Hl as [->|Hl]; [|discriminate].
+    cbn [find_attr fst snd] in *.
+    replace (String.eqb "test" "test") with true in * by reflexivity.
+    apply test_agree in Ht. destruct Ht as [Ht _].
+    unfold f_set at 1. replace (String.eqb "test" "test") with true by reflexivity.
+    rewrite Ht. cbn [bind].
+    assert (Ht' : val_test (find_attr "test" ra) = Some AnyOf) by (rewrite Fn; reflexivity).
+    destruct (IH (mkWF v (wf_props w)) AnyOf Hin Hnd Ht') as [w' [A [B C0]]].
+    exists w'. rewrite Fn in B. cbn [wf_test wf_props] in *. auto.
+Qed.
+
+Lemma f_set_skip local v w : mem local ["test"] = false -> f_set local v w = Ok w.
+Proof.
+  intros H. apply mem_false_cons in H. destruct H as [H1 _].
+  unfold f_set. apply String.eqb_neq in H1. rewrite H1. reflexivity.
+Qed.
+
+Lemma read_pf_name n a k f : read_pf (n, a, k) = Some f -> n = C "prop-filter".
+Proof.
+  unfold read_pf. destruct (qname_eqb n (C "prop-filter")) eqn:E; [|discriminate].
+  intros _. apply qname_eqb_spec in E. exact E.
+Qed.
+
+(** handleQuery's loop over the prop-filters: a decoding error becomes 400 *)
+Definition decode_pf_400 (el : w_prop_filter) : res PropFilter :=
+  match decode_prop_filter el with Ok pf => Ok pf | Err _ => bad_request | Panic => Panic end.
+
+Lemma f_kids_server es : forall fs w,
+  omapM read_pf es = Some fs -> (forall e, In e es -> collides (un3 e) = false) ->
+  exists wps pfs,
+    walk3 f_step w es = Ok (mkWF (wf_test w) (wf_props w ++ wps)) /\
+    mapM decode_pf_400 wps = Ok pfs /\ map canon_pf pfs = map pub_pf fs.
+Proof.
+  induction es as [|[[n a] k] es IH]; intros fs w H Hc.
+  - simpl in H. inversion H; subst. exists [], []. simpl. rewrite app_nil_r. destruct w; auto.
+  - cbn [omapM] in H. apply obind_some in H. destruct H as [f [Hf H]].
+    apply obind_some in H. destruct H as [fs' [Hfs H]]. inversion H; subst fs; clear H.
+    pose proof (read_pf_name _ _ _ _ Hf). subst n.
+    pose proof (Hc (C "prop-filter", a, k) (or_introl eq_refl)) as Hc1. cbn [un3 fst snd] in Hc1.
+    destruct (server_reads_pf _ _ _ _ Hf Hc1) as [wp [pf [U [V X]]]].
+    cbn [walk3]. unfold f_step at 1. cbn [C snd].
+    replace (String.eqb "prop-filter" "prop-filter") with true by reflexivity.
+    change (NS_CARD, "prop-filter") with (C "prop-filter"). rewrite U. cbn [bind].
+    assert (Hc' : forall e, In e es -> collides (un3 e) = false) by (intros; apply Hc; right; auto).
+    destruct (IH fs' (mkWF (wf_test w) (wf_props w ++ [wp])) Hfs Hc') as [wps [pfs [A [B C0]]]].
+    exists (wp :: wps), (pf :: pfs). rewrite A. cbn [wf_test wf_props]. rewrite <- app_assoc. cbn [app map mapM].
+    unfold decode_pf_400 at 1. rewrite V. cbn [bind]. rewrite B. cbn [bind]. rewrite X, C0. auto.
+Qed.
+
+Lemma server_reads_filter n a k t fs :
+  read_filter (n, a, k) = Some (t, fs) -> collides (Elem n a k) = false ->
+  exists w pfs, unmarshal_filter wf_zero n a k = Ok w /\ canon_test (wf_test w) = test_str t /\
+                mapM decode_pf_400 (wf_props w) = Ok pfs /\ map canon_pf pfs = map pub_pf fs.
+Proof.
+  unfold read_filter. intros H Hc.
+  destruct (qname_eqb n (C "filter")) eqn:En; [|discriminate]. cbn [negb] in H.
+  apply qname_eqb_spec in En. subst n.
+  destruct (attrs_ok ["test"] a) eqn:Ea; [|discriminate]. cbn [negb] in H.
+  apply obind_some in H. destruct H as [t' [Ht H]].
+  apply obind_some in H. destruct H as [es [Hes H]].
+  apply obind_some in H. destruct H as [fs' [Hfs H]]. inversion H; subst t' fs'; clear H.
+  apply collides_elem in Hc. destruct Hc as [Hca Hck].
+  change (attr_fields (C "filter")) with ["test"] in Hca.
+  apply attrs_ok_split in Ea. destruct Ea as [Hin Hnd].
+  unfold unmarshal_filter.
+  replace (check_name NS_CARD "filter" (C "filter")) with true by reflexivity. cbn [negb].
+  rewrite (assign_skip_decls f_set ["test"] a f_set_skip Hca).
+  unfold get_attr in Ht.
+  destruct (f_assign (real_attrs a) wf_zero t Hin Hnd Ht) as [w1 [A [B C0]]].
+  rewrite A. cbn [bind]. rewrite (walk_kids_elems f_step k es Hes).
+  pose proof (canon_test_found _ _ Ht) as CT. cbn [wf_zero wf_test wf_props] in B, C0. rewrite <- B in CT.
+  destruct (f_kids_server es fs w1 Hfs (elems_collides k _ Hes Hck)) as [wps [pfs [U [V X]]]].
+  rewrite U, C0. cbn [app]. exists (mkWF (wf_test w1) wps), pfs. auto.
+Qed.
+
+(** ** limit *)
+
+Lemma server_reads_limit n a k l :
+  read_limit (n, a, k) = Some l -> (l < two64)%N -> forall w0, unmarshal_limit w0 n a k = Ok l.
+Proof.
+  unfold read_limit. intros H Hl w0.
+  destruct (qname_eqb n (C "limit") && attrs_ok [] a) eqn:En; [|discriminate]. cbn [negb] in H.
+  apply andb_true_iff in En. destruct En as [En _]. apply qname_eqb_spec in En. subst n.
+  apply obind_some in H. destruct H as [es [Hes H]].
+  destruct es as [|[[n1 a1] k1] [|e2 r]]; try discriminate.
+  destruct (qname_eqb n1 (C "nresults") && attrs_ok [] a1) eqn:E1; [|discriminate]. cbn [negb] in H.
+  apply andb_true_iff in E1. destruct E1 as [E1 _]. apply qname_eqb_spec in E1. subst n1.
+  apply obind_some in H. destruct H as [s [Hs H]].
+  unfold unmarshal_limit.
+  replace (check_name NS_CARD "limit" (C "limit")) with true by reflexivity. cbn [negb].
+  rewrite (walk_kids_elems lim_step k _ Hes). cbn [walk3]. unfold lim_step. cbn [C snd].
+  replace (String.eqb "nresults" "nresults") with true by reflexivity.
+  rewrite (pcdata_chardata _ _ Hs).
+  unfold val_nresults in H. destruct (digits_to_N s) as [m|] eqn:Ed; [|discriminate].
+  destruct (0 <? m)%N; [|discriminate]. inversion H; subst m.
+  rewrite (unmarshal_uint_digits s l Ed Hl). reflexivity.
+Qed.
+
+Lemma read_limit_pos n a k l : read_limit (n, a, k) = Some l -> (0 < l)%N.
+Proof.
+  unfold read_limit. intros H.
+  destruct (negb _); [discriminate|].
+  apply obind_some in H. destruct H as [es [Hes H]].
+  destruct es as [|[[n1 a1] k1] [|e2 r]]; try discriminate.
+  destruct (negb _); [discriminate|].
+  apply obind_some in H. destruct H as [s [Hs H]].
+  unfold val_nresults in H. destruct (digits_to_N s) as [m|]; [|discriminate].
+  destruct (0 <? m)%N eqn:E; [|discriminate]. inversion H; subst. apply N.ltb_lt. exact E.
+Qed.
+
+(** ** address-data, through RawXMLValue's capture (namespace declarations dropped) *)
+
+Definition cap3 (e : elem3) : elem3 := (fst (fst e), real_attrs (snd (fst e)), map capture (snd e)).
+
+Lemma elems_capture k es : elems k = Some es -> elems (map capture k) = Some (map cap3 es).
+Proof.
+  revert es; induction k as [|x k IH]; simpl; intros es H.
+  - inversion H; reflexivity.
+  - destruct x; simpl.
+    + destruct (elems k) as [l|]; simpl in H; [|discriminate]. inversion H; subst.
+      rewrite (IH l eq_refl). reflexivity.
+    + destruct (is_ws s); [auto|discriminate].
+    + auto.
+Qed.
+
+Lemma cprop_assign ra : forall w,
+  forallb (attr_in ["name"; "novalue"]) ra = true ->
+  nodupb (map (fun x : attr => snd (fst x)) ra) = true ->
+  assign_attrs cprop_set w ra = Ok (dflt w (find_attr "name" ra)).
+Proof.
+  induction ra as [|[[ns l] v] ra IH]; intros w Hin Hnd; [reflexivity|].
+  cbn [forallb] in Hin. apply andb_true_iff in Hin. destruct Hin as [Hx Hin].
+  apply attr_in_cases in Hx. cbn [fst snd] in Hx. destruct Hx as [-> Hl].
+  cbn [map nodupb fst snd] in Hnd. apply andb_true_iff in Hnd. destruct Hnd as [Hnm Hnd].
+  apply negb_true_iff in Hnm.
+  pose proof (find_attr_none_of_nomem l ra Hnm) as Fn.
+  cbn [assign_attrs fst snd find_attr].
+  apply mem_true_cons in Hl. destruct Hl as [->|Hl]; [|apply mem_true_cons in Hl; destruct Hl as [->|Hl]; [|discriminate]].
+  - unfold cprop_set at 1. replace (String.eqb "name" "name") with true by reflexivity. cbn [bind dflt].
+    rewrite IH by auto. rewrite Fn. reflexivity.
+  - unfold cprop_set at 1.
+    replace (String.eqb "novalue" "name") with false by reflexivity. cbn [bind]. apply IH; auto.
+Qed.
+
+Lemma server_reads_cprop n a k name :
+  read_cprop (n, a, k) = Some name ->
+  n = C "prop" /\ unmarshal_cprop n (real_attrs a) (map capture k) = Ok name.
+Proof.
+  unfold read_cprop. intros H.
+  destruct (qname_eqb n (C "prop") && attrs_ok ["name"; "novalue"] a && no_content k) eqn:E; [|discriminate].
+  cbn [negb] in H. destruct (negb _); [discriminate|].
+  apply andb_true_iff in E. destruct E as [E _]. apply andb_true_iff in E. destruct E as [En Ea].
+  apply qname_eqb_spec in En. subst n. split; [reflexivity|].
+  apply attrs_ok_split in Ea. destruct Ea as [Hin Hnd].
+  unfold unmarshal_cprop. replace (check_name NS_CARD "prop" (C "prop")) with true by reflexivity. cbn [negb].
+  rewrite <- (real_attrs_idem a) in Hin, Hnd.
+  rewrite (cprop_assign (real_attrs a) "").
+  - unfold get_attr in H. rewrite H. reflexivity.
+  - rewrite real_attrs_idem in Hin. exact Hin.
+  - rewrite real_attrs_idem in Hnd. exact Hnd.
+Qed.
+
+Lemma ad_kids_server es : forall names w,
+  omapM read_cprop es = Some names ->
+  walk3 ad_step w (map cap3 es) = Ok (mkWAD (wad_props w ++ names) (wad_allprop w)).
+Proof.
+  induction es as [|[[n a] k] es IH]; intros names w H.
+  - simpl in H. inversion H; subst. simpl. rewrite app_nil_r. destruct w; reflexivity.
+  - cbn [omapM] in H. apply obind_some in H. destruct H as [nm [Hn H]].
+    apply obind_some in H. destruct H as [names' [Hns H]]. inversion H; subst names; clear H.
+    destruct (server_reads_cprop _ _ _ _ Hn) as [-> U].
+    cbn [map walk3 cap3 fst snd]. unfold ad_step at 1. cbn [C snd].
+    replace (String.eqb "prop" "prop") with true by reflexivity.
+    change (NS_CARD, "prop") with (C "prop"). rewrite U. cbn [bind].
+    rewrite (IH names' _ Hns). cbn [wad_props wad_allprop]. rewrite <- app_assoc. reflexivity.
+Qed.
+
+Lemma server_reads_data n a k d :
+  read_data (n, a, k) = Some d ->
+  exists w, unmarshal_address_data wad_zero n (real_attrs a) (map capture k) = Ok w /\
+            decode_address_data_req w = Ok (pub_data d).
+Proof.
+  unfold read_data. intros H.
+  destruct (qname_eqb n (C "address-data") && attrs_ok [] a) eqn:E; [|discriminate]. cbn [negb] in H.
+  apply andb_true_iff in E. destruct E as [En _]. apply qname_eqb_spec in En. subst n.
+  apply obind_some in H. destruct H as [es [Hes H]].
+  unfold unmarshal_address_data.
+  replace (check_name NS_CARD "address-data" (C "address-data")) with true by reflexivity. cbn [negb].
+  rewrite (walk_kids_elems ad_step _ _ (elems_capture k es Hes)).
+  apply single_cases in H. destruct H as [[c [-> [Ei H]]]|H].
+  - inversion H; subst d. destruct c as [[n1 a1] k1].
+    pose proof (is_empty_elem_name _ _ _ _ Ei). subst n1.
+    cbn [map walk3 cap3 fst snd]. unfold ad_step. cbn [C snd].
+    replace (String.eqb "allprop" "prop") with false by reflexivity.
+    replace (String.eqb "allprop" "allprop") with true by reflexivity. cbn [bind].
+    eexists; split; reflexivity.
+  - apply obind_some in H. destruct H as [names [Hn H]]. inversion H; subst d.
+    rewrite (ad_kids_server es names wad_zero Hn). cbn [wad_zero wad_props wad_allprop app].
+    eexists; split; reflexivity.
+Qed.
+
+Lemma raw_kids_elems k es :
+  elems k = Some es -> raw_kids k = map (fun e => RawTok (capture (un3 e))) es.
+Proof.
+  revert es; induction k as [|x k IH]; simpl; intros es H.
+  - inversion H; reflexivity.
+  - destruct x.
+    + destruct (elems k) as [l|]; simpl in H; [|discriminate]. inversion H; subst.
+      rewrite (IH l eq_refl). reflexivity.
+    + destruct (is_ws s); [auto|discriminate].
+    + auto.
+Qed.
+
+Lemma items_server es : forall items,
+  omapM read_item es = Some items ->
+  data_request_of (Some (map (fun e => RawTok (capture (un3 e))) es)) = Ok (items_data items).
+Proof.
+  unfold data_request_of.
+  induction es as [|[[n a] k] es IH]; intros items H.
+  - simpl in H. inversion H; subst. reflexivity.
+  - cbn [omapM] in H. apply obind_some in H. destruct H as [i [Hi H]].
+    apply obind_some in H. destruct H as [items' [His H]]. inversion H; subst items; clear H.
+    unfold read_item in Hi. cbn [fst] in Hi.
+    cbn [map un3 fst snd capture prop_get].
+    change addressDataName with (C "address-data").
+    destruct (qname_eqb n (C "address-data")) eqn:E.
+    + apply obind_some in Hi. destruct Hi as [d [Hd Hi]]. inversion Hi; subst i.
+      destruct (server_reads_data _ _ _ _ Hd) as [w [U V]].
+      change (without_nsdecls a) with (real_attrs a). rewrite U. cbn [bind items_data]. exact V.
+    + destruct (is_empty_elem n (n, a, k)); [|discriminate]. inversion Hi; subst i.
+      cbn [items_data]. apply IH. exact His.
+Qed.
+
+(** ** addressbook-query *)
+
+Definition Rq (acc : q_acc) (w : w_query) : Prop :=
+  (qa_sel acc = None -> wq_prop w = None) /\
+  data_request_of (wq_prop w) = Ok (sel_data (dflt RSelNone (qa_sel acc))) /\
+  match qa_filter acc with
+  | None => wq_filter w = wf_zero
+  | Some f => canon_test (wf_test (wq_filter w)) = test_str (fst f) /\
+              exists pfs, mapM decode_pf_400 (wf_props (wq_filter w)) = Ok pfs /\
+                          map canon_pf pfs = map pub_pf (snd f)
+  end /\
+  wq_limit w = qa_limit acc /\
+  (forall l, qa_limit acc = Some l -> (0 < l)%N).
+
+Lemma read_query_kids_limit es : forall acc acc' l,
+  read_query_kids es acc = Some acc' -> qa_limit acc = Some l -> qa_limit acc' = Some l.
+Proof.
+  induction es as [|e es IH]; intros acc acc' l H Hl.
+  - simpl in H. inversion H; subst. exact Hl.
+  - cbn [read_query_kids] in H.
+    destruct (is_sel_name (fst (fst e))).
+    { destruct (qa_sel acc); [discriminate|]. apply obind_some in H. destruct H as [s [_ H]].
+      eapply IH; eauto. }
+    destruct (qname_eqb (fst (fst e)) (C "filter")).
+    { destruct (qa_filter acc); [discriminate|]. apply obind_some in H. destruct H as [s [_ H]].
+      eapply IH; eauto. }
+    destruct (qname_eqb (fst (fst e)) (C "limit")); [|discriminate].
+    rewrite Hl in H. discriminate.
+Qed.
+
+Lemma is_sel_name_cases n : is_sel_name n = true -> n = D "allprop" \/ n = D "propname" \/ n = D "prop".
+Proof.
+  unfold is_sel_name. rewrite !orb_true_iff, !qname_eqb_spec. tauto.
+Qed.
+
+Lemma read_sel_server n a k s w :
+  read_sel (n, a, k) = Some s -> wq_prop w = None ->
+  exists w1, q_step n a k w = Ok w1 /\
+    data_request_of (wq_prop w1) = Ok (sel_data s) /\
+    wq_filter w1 = wq_filter w /\ wq_limit w1 = wq_limit w.
+Proof.
+  unfold read_sel. intros H Hp.
+  destruct (is_empty_elem (D "allprop") (n, a, k)) eqn:E1.
+  { inversion H; subst s. apply is_empty_elem_name in E1. subst n.
+    eexists. split; [reflexivity|]. cbn. rewrite Hp. auto. }
+  destruct (is_empty_elem (D "propname") (n, a, k)) eqn:E2.
+  { inversion H; subst s. apply is_empty_elem_name in E2. subst n.
+    eexists. split; [reflexivity|]. cbn. rewrite Hp. auto. }
+  destruct (qname_eqb n (D "prop") && attrs_ok [] a) eqn:E3; [|discriminate].
+  apply andb_true_iff in E3. destruct E3 as [E3 _]. apply qname_eqb_spec in E3. subst n.
+  apply obind_some in H. destruct H as [es [Hes H]].
+  apply obind_some in H. destruct H as [items [Hi H]]. inversion H; subst s.
+  eexists. split; [reflexivity|].
+  cbn [wq_prop wq_filter wq_limit]. rewrite Hp. cbn [dflt app].
+  rewrite (raw_kids_elems k es Hes). split; [|auto].
+  apply items_server. exact Hi.
+Qed.
+
+Lemma q_kids_server es : forall acc acc' w,
+  read_query_kids es acc = Some acc' ->
+  (forall e, In e es -> collides (un3 e) = false) ->
+  (forall l, qa_limit acc' = Some l -> (l < two64)%N) ->
+  Rq acc w -> exists w', walk3 q_step w es = Ok w' /\ Rq acc' w'.
+Proof.
+  induction es as [|[[n a] k] es IH]; intros acc acc' w H Hc Hb HR.
+  - simpl in H. inversion H; subst. exists w. auto.
+  - assert (Hc' : forall e, In e es -> collides (un3 e) = false) by (intros; apply Hc; right; auto).
+    pose proof (Hc (n, a, k) (or_introl eq_refl)) as Hc1. cbn [un3 fst snd] in Hc1.
+    destruct HR as [R1 [R2 [R3 [R4 R5]]]].
+    cbn [read_query_kids fst] in H. cbn [walk3].
+    destruct (is_sel_name n) eqn:Es.
+    { destruct (qa_sel acc) eqn:Eq; [discriminate|].
+      apply obind_some in H. destruct H as [s [Hs H]].
+      destruct (read_sel_server n a k s w Hs (R1 eq_refl)) as [w1 [U [V [X Y]]]].
+      rewrite U. cbn [bind].
+      apply (IH _ _ w1 H Hc' Hb).
+      unfold Rq. cbn [qa_sel qa_filter qa_limit dflt]. rewrite X, Y.
+      split; [discriminate|]. auto. }
+    destruct (qname_eqb n (C "filter")) eqn:Ef.
+    { destruct (qa_filter acc) eqn:Eq; [discriminate|].
+      apply obind_some in H. destruct H as [[t fs] [Hf H]].
+      apply qname_eqb_spec in Ef. subst n.
+      destruct (server_reads_filter _ _ _ _ _ Hf Hc1) as [wf' [pfs [U [V [X Y]]]]].
+      unfold q_step at 1.
+      replace (qname_eqb (C "filter") (NS_DAV, "prop")) with false by reflexivity.
+      replace (qname_eqb (C "filter") (NS_DAV, "allprop")) with false by reflexivity.
+      replace (qname_eqb (C "filter") (NS_DAV, "propname")) with false by reflexivity.
+      cbn [C snd]. replace (String.eqb "filter" "filter") with true by reflexivity.
+      change (NS_CARD, "filter") with (C "filter"). rewrite R3, U. cbn [bind].
+      apply (IH _ _ _ H Hc' Hb).
+      unfold Rq. cbn [qa_sel qa_filter qa_limit wq_prop wq_filter wq_limit fst snd].
+      split; [exact R1|]. split; [exact R2|]. split; [|auto]. split; [exact V|]. eauto. }
+    destruct (qname_eqb n (C "limit")) eqn:El; [|discriminate].
+    destruct (qa_limit acc) eqn:Eq; [discriminate|].
+    apply obind_some in H. destruct H as [l [Hl H]].
+    apply qname_eqb_spec in El. subst n.
+    pose proof (read_query_kids_limit es _ acc' l H eq_refl) as Hfin.
+    pose proof (server_reads_limit _ _ _ _ Hl (Hb l Hfin) (dflt 0%N (wq_limit w))) as U.
+    unfold q_step at 1.
+    replace (qname_eqb (C "limit") (NS_DAV, "prop")) with false by reflexivity.
+    replace (qname_eqb (C "limit") (NS_DAV, "allprop")) with false by reflexivity.
+    replace (qname_eqb (C "limit") (NS_DAV, "propname")) with false by reflexivity.
+    cbn [C snd]. replace (String.eqb "limit" "filter") with false by reflexivity.
+    replace (String.eqb "limit" "limit") with true by reflexivity.
+    change (NS_CARD, "limit") with (C "limit"). rewrite U. cbn [bind].
+    apply (IH _ _ _ H Hc' Hb).
+    unfold Rq. cbn [qa_sel qa_filter qa_limit wq_prop wq_filter wq_limit].
+    split; [exact R1|]. split; [exact R2|]. split; [exact R3|]. split; [reflexivity|].
+    intros l' Hl'. inversion Hl'; subst l'. eapply read_limit_pos; eauto.
+Qed.
+
+Lemma int_of_uint_small n : (n < two63)%N -> int_of_uint n = Z.of_N n.
+Proof. intros H. unfold int_of_uint. apply N.ltb_lt in H. rewrite H. reflexivity. Qed.
+
+Lemma two63_lt_two64 : (two63 < two64)%N. Proof. reflexivity. Qed.
+
+Lemma server_reads_query path n a k q :
+  qname_eqb n (C "addressbook-query") = true ->
+  read_query a k = Some q -> existsb collides k = false ->
+  (forall l, rq_limit q = Some l -> (l < two63)%N) ->
+  exists o, (do w <- unmarshal_query n a k; handle_query path w) = Ok o /\
+            canon_outcome o = CallQuery path (pub_query q).
+Proof.
+  intros En H Hc Hb. apply qname_eqb_spec in En. subst n.
+  unfold read_query in H. destruct (negb _); [discriminate|].
+  apply obind_some in H. destruct H as [es [Hes H]].
+  apply obind_some in H. destruct H as [acc [Hacc H]].
+  apply obind_some in H. destruct H as [f [Hf H]]. inversion H; subst q; clear H.
+  cbn [rq_limit] in Hb.
+  unfold unmarshal_query.
+  replace (check_name NS_CARD "addressbook-query" (C "addressbook-query")) with true by reflexivity. cbn [negb].
+  rewrite (walk_kids_elems q_step k es Hes).
+  assert (R0 : Rq (mkQA None None None) wq_zero).
+  { unfold Rq. cbn. repeat split; auto. discriminate. }
+  assert (Hb' : forall l, qa_limit acc = Some l -> (l < two64)%N).
+  { intros l Hl. eapply N.lt_trans; [apply Hb; exact Hl|apply two63_lt_two64]. }
+  destruct (q_kids_server es _ acc wq_zero Hacc (elems_collides k es Hes Hc) Hb' R0) as [w [U [R1 [R2 [R3 [R4 R5]]]]]].
+  rewrite U. cbn [bind]. rewrite Hf in R3. destruct R3 as [T [pfs [P1 P2]]].
+  unfold handle_query. rewrite R2. cbn [bind].
+  change (mapM (fun el => match decode_prop_filter el with Ok pf => Ok pf | Err _ => bad_request | Panic => Panic end)
+               (wf_props (wq_filter w))) with (mapM decode_pf_400 (wf_props (wq_filter w))).
+  rewrite P1. cbn [bind]. rewrite R4.
+  destruct (qa_limit acc) as [l|] eqn:El.
+  - rewrite (int_of_uint_small l (Hb l eq_refl)).
+    pose proof (R5 l eq_refl) as Hpos.
+    assert (Hz : (Z.of_N l <=? 0)%Z = false) by (apply Z.leb_gt; lia).
+    rewrite Hz. eexists; split; [reflexivity|].
+    unfold canon_outcome, canon_query, pub_query. cbn. rewrite P2, T. reflexivity.
+  - eexists; split; [reflexivity|].
+    unfold canon_outcome, canon_query, pub_query. cbn. rewrite P2, T. reflexivity.
+Qed.
+
+(** ** addressbook-multiget *)
+
+Lemma read_sel_server_m up n a k s w :
+  read_sel (n, a, k) = Some s -> wm_prop w = None ->
+  exists w1, m_step up n a k w = Ok w1 /\
+    data_request_of (wm_prop w1) = Ok (sel_data s) /\ wm_hrefs w1 = wm_hrefs w.
+Proof.
+  unfold read_sel. intros H Hp.
+  destruct (is_empty_elem (D "allprop") (n, a, k)) eqn:E1.
+  { inversion H; subst s. apply is_empty_elem_name in E1. subst n.
+    eexists. split; [reflexivity|]. cbn. rewrite Hp. auto. }
+  destruct (is_empty_elem (D "propname") (n, a, k)) eqn:E2.
+  { inversion H; subst s. apply is_empty_elem_name in E2. subst n.
+    eexists. split; [reflexivity|]. cbn. rewrite Hp. auto. }
+  destruct (qname_eqb n (D "prop") && attrs_ok [] a) eqn:E3; [|discriminate].
+  apply andb_true_iff in E3. destruct E3 as [E3 _]. apply qname_eqb_spec in E3. subst n.
+  apply obind_some in H. destruct H as [es [Hes H]].
+  apply obind_some in H. destruct H as [items [Hi H]]. inversion H; subst s.
+  eexists. split; [reflexivity|].
+  cbn [wm_prop wm_hrefs]. rewrite Hp. cbn [dflt app].
+  rewrite (raw_kids_elems k es Hes). split; [|auto].
+  apply items_server. exact Hi.
+Qed.
+
+Lemma m_kids_server up es : forall sel sel' hrefs paths w,
+  read_multiget_kids es sel = Some (sel', hrefs) -> omapM up hrefs = Some paths ->
+  (sel = None -> wm_prop w = None) ->
+  data_request_of (wm_prop w) = Ok (sel_data (dflt RSelNone sel)) ->
+  exists w', walk3 (m_step up) w es = Ok w' /\ wm_hrefs w' = (wm_hrefs w ++ paths)%list /\
+             data_request_of (wm_prop w') = Ok (sel_data (dflt RSelNone sel')).
+Proof.
+  induction es as [|[[n a] k] es IH]; intros sel sel' hrefs paths w H Hp R1 R2.
+  - simpl in H. inversion H; subst. simpl in Hp. inversion Hp; subst.
+    exists w. simpl. rewrite app_nil_r. auto.
+  - cbn [read_multiget_kids fst] in H. cbn [walk3].
+    destruct (is_sel_name n) eqn:Es.
+    { destruct sel; [discriminate|].
+      apply obind_some in H. destruct H as [s [Hs H]].
+      destruct (read_sel_server_m up n a k s w Hs (R1 eq_refl)) as [w1 [U [V X]]].
+      rewrite U. cbn [bind].
+      destruct (IH (Some s) sel' hrefs paths w1 H Hp) as [w' [A [B C0]]]; [discriminate|exact V|].
+      exists w'. rewrite X in B. auto. }
+    destruct (qname_eqb n (D "href")) eqn:Eh; [|discriminate].
+    apply obind_some in H. destruct H as [h [Hh H]].
+    apply obind_some in H. destruct H as [[sel1 hrefs1] [Hr H]]. cbn [fst snd] in H.
+    inversion H; subst sel' hrefs; clear H.
+    cbn [omapM] in Hp. apply obind_some in Hp. destruct Hp as [p [Hp1 Hp]].
+    apply obind_some in Hp. destruct Hp as [paths1 [Hp2 Hp]]. inversion Hp; subst paths; clear Hp.
+    apply qname_eqb_spec in Eh. subst n.
+    unfold read_href in Hh. destruct (negb _); [discriminate|].
+    unfold m_step at 1. replace (qname_eqb (D "href") (NS_DAV, "href")) with true by reflexivity.
+    rewrite (pcdata_chardata _ _ Hh), Hp1. cbn [bind].
+    destruct (IH sel sel1 hrefs1 paths1 (mkWM (wm_hrefs w ++ [p]) (wm_prop w) (wm_allprop w) (wm_propname w)) Hr Hp2 R1 R2)
+      as [w' [A [B C0]]].
+    exists w'. cbn [wm_hrefs] in B. rewrite <- app_assoc in B. auto.
+Qed.
+
+Lemma server_reads_multiget up n a k m paths :
+  qname_eqb n (C "addressbook-multiget") = true ->
+  read_multiget a k = Some m -> omapM up (rm_hrefs m) = Some paths ->
+  (do w <- unmarshal_multiget up n a k; handle_multiget w) =
+  Ok (CallsGet (map (fun p => (p, sel_data (rm_sel m))) paths)).
+Proof.
+  intros En H Hp. apply qname_eqb_spec in En. subst n.
+  unfold read_multiget in H. destruct (negb _); [discriminate|].
+  apply obind_some in H. destruct H as [es [Hes H]].
+  apply obind_some in H. destruct H as [[sel hrefs] [Hk H]]. cbn [fst snd] in H.
+  destruct (nonempty hrefs); [|discriminate]. inversion H; subst m; clear H. cbn [rm_hrefs rm_sel] in *.
+  unfold unmarshal_multiget.
+  replace (check_name NS_CARD "addressbook-multiget" (C "addressbook-multiget")) with true by reflexivity. cbn [negb].
+  rewrite (walk_kids_elems (m_step up) k es Hes).
+  destruct (m_kids_server up es None sel hrefs paths wm_zero Hk Hp) as [w [U [V X]]]; [reflexivity|reflexivity|].
+  rewrite U. cbn [bind]. unfold handle_multiget. rewrite X. cbn [bind]. rewrite V. reflexivity.
+Qed.
+
+(** ** every document the reference reads reaches the backend as the request it denotes *)
+
+Theorem server_denotes_read up path d r c :
+  rfc_read d = Some r -> collides d = false -> limit_fits r = true ->
+  backend_call_of up path r = Some c ->
+  exists o, handle_report up path d = Ok o /\ canon_outcome o = c.
+Proof.
+  intros H Hc Hl Hb. destruct d as [n a k| |]; try discriminate.
+  unfold rfc_read in H. unfold handle_report.
+  apply collides_elem in Hc. destruct Hc as [_ Hc].
+  change (NS_CARD, "addressbook-query") with (C "addressbook-query").
+  change (NS_CARD, "addressbook-multiget") with (C "addressbook-multiget").
+  destruct (qname_eqb n (C "addressbook-query")) eqn:E1.
+  - apply obind_some in H. destruct H as [q [Hq H]]. inversion H; subst r.
+    simpl in Hb. inversion Hb; subst c.
+    apply server_reads_query; auto.
+    intros l Hlim. simpl in Hl. rewrite Hlim in Hl. apply N.ltb_lt. exact Hl.
+  - destruct (qname_eqb n (C "addressbook-multiget")) eqn:E2; [|discriminate].
+    apply obind_some in H. destruct H as [m [Hm H]]. inversion H; subst r.
+    simpl in Hb. apply obind_some in Hb. destruct Hb as [paths [Hp Hb]]. inversion Hb; subst c.
+    rewrite (server_reads_multiget up n a k m paths E2 Hm Hp).
+    eexists; split; reflexivity.
+Qed.
